@@ -9,15 +9,18 @@ import (
 func sanitizeSelectionSet(ctx *PlanningContext, selectionSet ast.SelectionSet, insertionPoint []string) (ast.SelectionSet, ScrubFields) {
 	scrubFields := make(ScrubFields)
 	var result ast.SelectionSet
-	// helper fields which client selected by himself below the fields of this level, by the path of the field
-	selectedHelpers := make(map[string][]selectedHelper)
+	// helper fields which client selected by himself below a field are kept for the whole operation, by the path of the field:
+	// another selection of the same response key, here or at the level of an ancestor, should not scrub them
+	if ctx.selectedHelpers == nil {
+		ctx.selectedHelpers = make(map[string][]selectedHelper)
+	}
 	for _, s := range selectionSet {
 		switch s := s.(type) {
 		case *ast.Field:
 			if len(s.SelectionSet) != 0 {
 				// read before the fragments are rewritten and get helper fields of their own
 				path := scrubFields.hash(append(insertionPoint, s.Alias))
-				selectedHelpers[path] = append(selectedHelpers[path], clientSelectedHelpers(ctx, s.SelectionSet, nil)...)
+				ctx.selectedHelpers[path] = append(ctx.selectedHelpers[path], clientSelectedHelpers(ctx, s.SelectionSet, nil)...)
 
 				childSelectionSet, sf := sanitizeSelectionSet(ctx, s.SelectionSet, append(insertionPoint, s.Alias))
 				scrubFields.Merge(sf)
@@ -90,7 +93,7 @@ func sanitizeSelectionSet(ctx *PlanningContext, selectionSet ast.SelectionSet, i
 
 	// nor should the ones he selected below a field, by himself or through a fragment (then for the objects this fragment
 	// applies to), even if another fragment or another selection of the same response key added them too
-	for path, helpers := range selectedHelpers {
+	for path, helpers := range ctx.selectedHelpers {
 		for _, h := range helpers {
 			if h.typename == "" {
 				scrubFields.Unset(scrubFields.unhash(path), h.fieldname)
